@@ -158,7 +158,7 @@ def check_C06(tr, history, meta, rng):
             if fa != fb:
                 out.append(Finding("C06", "what an app's clients observe does not depend on other apps' activity", idx,
                                    {"app": app, "op": proto.op_line(op), "with_others": fa, "alone": fb},
-                                   _c06_known(tr, idx)))
+                                   _c06_known(tr, idx, app, conn_apps)))
                 break
             if ra is not None and rb is not None and ra != rb:
                 names = ("nameplates", "nameplate_sides", "mailboxes", "mailbox_sides", "messages", "usage nameplates",
@@ -166,22 +166,22 @@ def check_C06(tr, history, meta, rng):
                 diff = {n: {"with_others": [x for x in a_ if x not in b_][:4], "alone": [x for x in b_ if x not in a_][:4]}
                         for n, a_, b_ in zip(names, ra, rb) if a_ != b_}
                 out.append(Finding("C06", "what is stored for an app does not depend on other apps' activity", idx,
-                                   {"app": app, "op": proto.op_line(op), "difference": diff}, _c06_known(tr, idx)))
+                                   {"app": app, "op": proto.op_line(op), "difference": diff}, _c06_known(tr, idx, app, conn_apps)))
                 break
         if out:
             break
     return out
 
 
-def _c06_known(tr, idx):
-    # a mailbox id used under two apps: K-global-mailbox-id
+def _c06_known(tr, idx, app=None, conn_apps=None):
+    """K-global-mailbox-id: a connection of the VIEWED app was refused a mailbox id because it
+    exists under another app (IntegrityError); from then on its view legitimately depends on
+    the other app.  IntegrityErrors suffered by other apps do not excuse anything."""
     for st in tr.steps:
         if st.i > idx:
             break
-        if st.post is not None:
-            pass
         for e in st.internal():
-            if e["cls"] == "IntegrityError":
+            if e["cls"] == "IntegrityError" and (app is None or (conn_apps or {}).get(e["c"]) == app):
                 return "K-global-mailbox-id"
     return None
 
